@@ -222,7 +222,8 @@ def main(argv=None):
     # ----------------------------------------------------------------------------------- evidence
     wall = time.time() - t0
     try:
-        write_evidence(mod, pid, args.tier, seed, merged, violations, stale, replayed, wall)
+        if merged is not None:  # --no-search runs only the replay tier and leaves the evidence file alone
+            write_evidence(mod, pid, args.tier, seed, merged, violations, stale, replayed, wall)
     except Exception:
         import traceback
 
